@@ -130,6 +130,30 @@ def compare(sc, base_game, base_runs, game2, perm, ren, acc, exact=True, where="
                 break
         if findings:
             continue
+        # 3a. the two diagnostic vectors, when the base run is in the scope in which they are determined by the reported strategies
+        # (C14: single final actions, no exact reward tie at reachable player states)
+        if b._c14 is None:
+            try:
+                f14, in14, _ = J.judge_c14(sc, b)
+                b._c14 = in14 and not f14
+            except Exception:                                # noqa: BLE001
+                b._c14 = False
+        if b._c14:
+            for s in sorted(b.R):          # C14 speaks about states reachable from the initial state only (ties elsewhere are broken by order)
+                tolp = 2 * (J.DELTA * (1 + float(AR)) + 1e-9)
+                if abs(r1[6][s] - r2[6][perm[s]]) > tolp:
+                    findings.append(("C13/diagnostic-differs", r2[6][perm[s]], r1[6][s],
+                                     "state %d: 'probabilities under minimal reward' %r vs %r in the base presentation (prune=%s)"
+                                     % (s, r2[6][perm[s]], r1[6][s], prune), cfg))
+                    break
+                tolr = 2 * J.reward_eps(AR, b.rewards, r1[7][s])
+                if abs(r1[7][s] - r2[7][perm[s]]) > tolr:
+                    findings.append(("C13/diagnostic-differs", r2[7][perm[s]], r1[7][s],
+                                     "state %d: 'rewards under minimal reachability' %r vs %r in the base presentation (prune=%s)"
+                                     % (s, r2[7][perm[s]], r1[7][s], prune), cfg))
+                    break
+            if findings:
+                continue
         # 3b. states NOT reachable from the initial state in the conditioned game (pruning on): their reported numbers are the
         # fixed point of whatever the solver left of them; the amplification factor is taken from the observed lists of the base run
         if prune and len(states) < n and b.out.snap is not None:
@@ -479,9 +503,12 @@ def plan(ctx):
     else:
         uni("U-S2d2", "product")
         uni("U-S2", "sum", frac=16)
+        uni("U-S3", "sum", frac=256)
         fam("U-F", "sum-gens", max_deg=3, stride=2, offset=ctx.seed)
         boards = [(w, l, s, fd) for (w, l) in ((1, 2), (2, 2), (3, 2)) for s in (0, 1) for fd in (False, True)]
         cpu = 2.0
+    fam("U-C", "sum-gens", stride=1 if ctx.thorough else 24, offset=ctx.seed)     # chains: values settle late along the numbering
+    fam("U-P2", "sum-gens", stride=1 if ctx.thorough else 36, offset=ctx.seed)    # two-level choices
     fam("U-N", "sum")              # near chains: order of three almost-equal successors must not matter
     if ctx.thorough:
         fam("U-R", "sum-gens")     # reward ties through different float sums
